@@ -243,6 +243,8 @@ func (c *ChunkComposer) RunLoop(reader io.Reader, cb OnCompleteMessage) error {
 						return base.NewErrRtmpShortBuffer(int(aggregateStream.header.MsgLen), int(stream.msg.Len()), "parse rtmp aggregate sub message body")
 					}
 					aggregateStream.msg.buff = nazabytes.NewBufferRefBytes(stream.msg.buff.Peek(int(aggregateStream.header.MsgLen)))
+					// NewBufferRefBytes只持有内存块，读写位置都为0，需要标记这些数据为可读
+					aggregateStream.msg.buff.Flush(int(aggregateStream.header.MsgLen))
 					stream.msg.Skip(aggregateStream.header.MsgLen)
 
 					// sub message回调给上层
